@@ -79,15 +79,14 @@ Proof.
       rewrite E2, E3. repeat split; try lia. intros _. rewrite N.even_add. rewrite <- N.negb_odd, O. reflexivity.
     + assert (fl * B - A = 0) as E2 by nia. rewrite Er, E2. repeat split; try lia. intros _.
       rewrite <- N.negb_odd, O. reflexivity.
-  - rewrite N.compare_lt_iff in C. assert (fl * B - A = 0) as E2 by nia. rewrite Er, E2. repeat split; try lia.
-    intros [H|H]; lia.
+  - rewrite N.compare_lt_iff in C. assert (fl * B - A = 0) as E2 by nia. rewrite Er, E2. repeat split; try lia; try (intros [H|H]; lia).
   - rewrite N.compare_gt_iff in C.
     assert ((fl + 1) * B - A = B - r) as E2 by nia. assert (A - (fl + 1) * B = 0) as E3 by nia.
-    rewrite E2, E3. repeat split; try lia. intros [H|H]; lia.
+    rewrite E2, E3. repeat split; try lia; try (intros [H|H]; lia).
 Qed.
 
 Lemma dec_rat_den m e : snd (dec_rat m e) <> 0.
-Proof. unfold dec_rat. destruct e; cbn [snd]; try discriminate. apply N.pow_nonzero. discriminate. Qed.
+Proof. unfold dec_rat. destruct e; cbn [snd]; try discriminate; try (apply N.pow_nonzero; discriminate). Qed.
 
 Lemma scaled_pair_den v q : snd v <> 0 -> snd (scaled_pair v q) <> 0.
 Proof.
@@ -124,17 +123,19 @@ Proof.
         * replace (Z.neg p + 1)%Z with (Z.neg (p - 1)) by lia. reflexivity. }
   rewrite E in H. unfold near_pair in H. destruct H as (H1 & H2 & H3).
   destruct K as [K|(A' & EA & K)]; rewrite K; unfold near_pair.
-  - replace (P52 * (2 * B)) with (P53 * B) by (rewrite E53; lia). repeat split; try lia.
-    intros _. reflexivity.
+  - replace (P52 * (2 * B)) with (P53 * B) by (rewrite E53; lia). repeat split; try lia; try (intros _; reflexivity).
   - subst A. replace (2 * A' - P53 * B) with (2 * (A' - P52 * B)) in * by (rewrite E53; lia).
     replace (P53 * B - 2 * A') with (2 * (P52 * B - A')) in * by (rewrite E53; lia).
-    repeat split; try lia. intros _. reflexivity.
+    repeat split; try lia; try (intros _; reflexivity).
 Qed.
 
 (* ROUND64 IS A NEAREST ROUNDING: the float returned for m * 10^e is within half a unit in its last place of the value
    (exactly half only when its mantissa is even), and its exponent is in the binary64 range *)
+Definition canonical (mant : N) (q : Z) : Prop :=
+  (P52 <= mant < P53 /\ (MIN_Q <= q <= MAX_Q)%Z) \/ (mant < P52 /\ q = MIN_Q).
+
 Theorem round64_nearest m e mant q : m <> 0 -> round64 m e = Some (mant, q) ->
-  near_pair (scaled_pair (dec_rat m e) q) mant /\ (MIN_Q <= q <= MAX_Q)%Z.
+  near_pair (scaled_pair (dec_rat m e) q) mant /\ canonical mant q.
 Proof.
   intros Hm. unfold round64. apply N.eqb_neq in Hm. rewrite Hm.
   set (v := dec_rat m e). pose proof (dec_rat_den m e) as Hd. fold v in Hd.
@@ -150,12 +151,19 @@ Proof.
     destruct (P53 <=? f1); [apply PK|]. destruct ((f1 <? P52) && (MIN_Q <? Z.max q0 MIN_Q)%Z); [apply PK|].
     exists (Z.max q0 MIN_Q). rewrite S1. split; [reflexivity | lia]. }
   rewrite EP. destruct (scaled v q') as [fl c] eqn:S.
+  destruct (negb (((P52 <=? fl) && (fl <? P53)) || ((q' =? MIN_Q)%Z && (fl <? P52)))) eqn:CAN; [discriminate|].
+  apply negb_false_iff in CAN.
   pose proof (scaled_near v q' fl c Hd S) as NP.
   set (mant0 := if round_up fl c then fl + 1 else fl) in *.
   destruct (mant0 =? P53) eqn:C53.
   - apply N.eqb_eq in C53. rewrite C53 in NP.
     destruct (MAX_Q <? q' + 1)%Z eqn:OV; [discriminate|]. intro H. injection H as <- <-.
-    split; [exact (near_carry v q' Hd NP)|]. apply Z.ltb_ge in OV. lia.
+    split; [exact (near_carry v q' Hd NP)|]. apply Z.ltb_ge in OV. left. split; [split; [lia | reflexivity] | lia].
   - destruct (MAX_Q <? q')%Z eqn:OV; [discriminate|]. intro H. injection H as <- <-.
-    split; [exact NP|]. apply Z.ltb_ge in OV. lia.
+    split; [exact NP|]. apply Z.ltb_ge in OV. apply N.eqb_neq in C53.
+    assert (mant0 = fl \/ mant0 = fl + 1) as Hm0 by (subst mant0; destruct (round_up fl c); auto).
+    apply orb_true_iff in CAN as [CAN|CAN]; apply andb_true_iff in CAN as [C1 C2].
+    + apply N.leb_le in C1. apply N.ltb_lt in C2. left. split; [lia | lia].
+    + apply Z.eqb_eq in C1. apply N.ltb_lt in C2.
+      destruct (N.eq_dec mant0 P52) as [E|NE]; [left; rewrite E; split; [split; [lia | reflexivity] | lia] | right; split; [lia | exact C1]].
 Qed.
